@@ -97,6 +97,9 @@ type c16Client struct {
 	beyond    []string
 	maxSize   int64
 	calls     int
+	sthFlight int  // GetSTH calls in flight
+	returned  bool // Run / ScanLog has returned
+	lateSTH   int  // GetSTH calls in flight when it returned, or started afterwards: the range generator outlived Run
 	runaway   string
 	abort     context.CancelFunc
 }
@@ -114,11 +117,20 @@ func (c *c16Client) GetSTH(ctx context.Context) (*ct.SignedTreeHead, error) {
 	c.mu.Lock()
 	n := c.sthCalls
 	c.sthCalls++
+	c.sthFlight++
+	if c.returned {
+		c.lateSTH++
+	}
 	c.mu.Unlock()
 	h := c16Hash(c.p.fseed, 0x5747, uint64(n), 1)
 	time.Sleep(c16Latencies[h%uint64(len(c16Latencies))])
 	c.mu.Lock()
 	defer c.mu.Unlock()
+	c.sthFlight--
+	if c.returned {
+		// the scan is over for the caller: do not feed the trace, do not let the generator go on
+		return nil, errors.New("verif: scan already returned")
+	}
 	if int((h>>8)%100) < c.p.sthErr && n > 0 {
 		c.out.T("sth err", "ok")
 		return nil, errors.New("verif: scripted GetSTH failure")
@@ -392,6 +404,10 @@ func c16Run(out *verifkit.Out, p *c16Params) {
 					runErr = f.Run(ctx, c.onBatch)
 				}
 				retT = time.Since(t0)
+				c.mu.Lock()
+				c.returned = true
+				c.lateSTH += c.sthFlight
+				c.mu.Unlock()
 			}()
 			select {
 			case <-fin:
@@ -400,7 +416,12 @@ func c16Run(out *verifkit.Out, p *c16Params) {
 				cancel()
 				<-fin
 			}
-			if p.scan {
+			c.mu.Lock()
+			late := c.lateSTH > 0
+			c.mu.Unlock()
+			if late {
+				finalEnd = -1 // not read: the generator goroutine may still be writing it
+			} else if p.scan {
 				finalEnd = s.fetcher.opts.EndIndex
 			} else {
 				finalEnd = fo.EndIndex
@@ -436,6 +457,11 @@ func c16Run(out *verifkit.Out, p *c16Params) {
 		out.Fail("request-loop "+key, c.runaway)
 		cancelled = true // what was delivered before the abort is still checked for duplicates, range and payload
 	}
+	if c.lateSTH > 0 {
+		// Run has returned to its caller while the goroutine it started (genRanges → updateSTH) was still talking to the log;
+		// that goroutine then writes f.sth and f.opts.EndIndex, which the caller (ScanLog's return value) reads: a data race
+		out.Fail("generator-outlives-run "+key, fmt.Sprintf("%d GetSTH call(s) of the range generator were in flight or started after Run/ScanLog had returned", c.lateSTH))
+	}
 	// "terminates when cancelled": once the caller's context is cancelled the scan returns promptly, whatever the server does
 	// (a request in flight may take its scripted latency of at most 2.5 s; nothing else may hold it up)
 	if cancelled && c.runaway == "" && retT > cancelT+time.Minute {
@@ -456,6 +482,10 @@ func c16Run(out *verifkit.Out, p *c16Params) {
 	if runErr != nil {
 		out.Count("outcome:error")
 		return // only when the very first GetSTH fails; nothing was delivered
+	}
+	if finalEnd < 0 {
+		out.Count("outcome:end-index-unreadable")
+		return
 	}
 	expectEnd := finalEnd
 	if !p.cont {
